@@ -172,46 +172,34 @@ Definition token_concat (t1 t2 : tok) : option tok := classify (spell t1 ++ spel
 (* The C loop walks the buffer from its end; [todo] is the part not visited yet (reversed, so its
    head is the token at index i), [done] the part behind it.  At a T_RDBLNO: j = first token of
    [done] after at most one white space, k = first token of the rest of [todo] after at most one. *)
+Definition is_plm (t : tok) : bool := match t with TPlm => true | _ => false end.
+(* the list without its first token when that is white space *)
+Definition skip1 (l : list tok) : list tok := match l with w :: l' => if is_ws w then l' else l | [] => l end.
+
 Fixpoint dc (todo done : list tok) : option (list tok) :=
   match todo with
   | [] => Some done
-  | TRDblNo :: l =>
-      let done1 := match done with t :: r => if is_ws t then r else done | [] => [] end in
-      match done1 with
-      | [] => None                                      (* assert (j < len) *)
-      | tj :: r =>
-          match l with
-          | [] => None                                  (* assert (k >= 0) *)
-          | t1 :: l1 =>
-              if is_ws t1 then
-                match l1 with
-                | [] => None
-                | tk :: l2 =>
-                    match tk, tj with
-                    | TPlm, TPlm => dc (match l2 with w :: l3 => if is_ws w then l3 else l2 | [] => l2 end)
-                                       (TPlm :: match r with w :: r' => if is_ws w then r' else r | [] => [] end)
-                    | TPlm, _ => dc (match l2 with w :: l3 => if is_ws w then l3 else l2 | [] => l2 end) (tj :: r)
-                    | _, TPlm => dc l1 (match r with w :: r' => if is_ws w then r' else r | [] => [] end)
-                    | _, _ => match token_concat tk tj with
-                              | Some t => dc l2 (t :: r)
-                              | None => None
-                              end
-                    end
-                end
-              else
-                match t1, tj with
-                | TPlm, TPlm => dc (match l1 with w :: l3 => if is_ws w then l3 else l1 | [] => l1 end)
-                                   (TPlm :: match r with w :: r' => if is_ws w then r' else r | [] => [] end)
-                | TPlm, _ => dc (match l1 with w :: l3 => if is_ws w then l3 else l1 | [] => l1 end) (tj :: r)
-                | _, TPlm => dc l (match r with w :: r' => if is_ws w then r' else r | [] => [] end)
-                | _, _ => match token_concat t1 tj with
-                          | Some t => dc l1 (t :: r)
-                          | None => None
-                          end
-                end
+  | t :: l =>
+      match t with
+      | TRDblNo =>
+          match skip1 done with
+          | [] => None                                    (* assert (j < len) *)
+          | tj :: r =>
+              match skip1 l with
+              | [] => None                                (* assert (k >= 0) *)
+              | tk :: l2 =>
+                  if is_plm tk then
+                    if is_plm tj then dc (skip1 l2) (TPlm :: skip1 r)      (* both empty: a placemarker again *)
+                    else dc (skip1 l2) (tj :: r)                           (* empty ## b = b *)
+                  else if is_plm tj then dc (skip1 l) (skip1 r)            (* a ## empty = a (a is visited next) *)
+                  else match token_concat tk tj with
+                       | Some t' => dc l2 (t' :: r)
+                       | None => None                    (* wrong result of ## *)
+                       end
+              end
           end
+      | _ => dc l (t :: done)
       end
-  | t :: l => dc l (t :: done)
   end.
 
 Definition plm_to_sp (t : tok) : tok := match t with TPlm => TSp | _ => t end.
